@@ -8,7 +8,8 @@ RULE = ("every caller buffer is an mmap'ed region whose documented last byte (or
         "(all residues modulo the vector widths), pixel format, scaling factor, cropping region, row padding 0..40, both row orders, "
         "8/12/16-bit; run twice with different prefill: the set of bytes written must be exactly the model's (the samples of the rows, "
         "never the row padding) - compared as a digest with the Lean model of the extent.  g11c: tj3Compress8/12/16 (lossy and lossless) "
-        "from a read-only buffer with pitch.  g11y: tj3EncodeYUVPlanes8, tj3DecodeYUVPlanes8, tj3CompressFromYUVPlanes8 and "
+        "from a read-only buffer with pitch.  g11r: jpeg_read_scanlines (libjpeg API) into rows placed at every byte alignment inside a canary "
+        "field - RGB565 and the extended RGB colourspaces, every dither mode, merged and separate upsampling, horizontal crops.  g11y: tj3EncodeYUVPlanes8, tj3DecodeYUVPlanes8, tj3CompressFromYUVPlanes8 and "
         "tj3DecompressToYUVPlanes8 (with scaling) on planes of exactly tj3YUVPlaneSize() bytes each with stride padding, which must stay "
         "untouched.  Run on the build without SIMD (ASan), with AVX2 and with SSE2")
 TRUSTED = ["guard pages and canaries observe the real accesses; Model.Extent is the documented addressing arithmetic"]
@@ -18,6 +19,7 @@ ASSUMPTIONS = ["page size 4096; reads of SIMD kernels beyond a row but inside th
 def classify(op, R):
     p = op.split(" ")
     if p[0] == "g11d": return "g11d:ss%s:pf%s:sf%s:p%s:w%d:fe%s:crop%d" % (p[1], p[5], p[6], p[11], int(p[2]) % 16, p[9], 1 if p[10] != "0" else 0)
+    if p[0] == "g11r": return "g11r:ss%s:cs%s:off%s:d%s:f%s:w%d:crop%d" % (p[1], p[4], p[5], p[7], p[8], int(p[2]) % 4, 1 if p[10] != "0" else 0)
     if p[0] == "g11c": return "g11c:pf%s:ss%s:p%s:ll%s:w%d" % (p[3], p[4], p[8], p[9], int(p[1]) % 16)
     return "g11y:ss%s:w%d:sf%s" % (p[3], int(p[1]) % 16, p[7])
 
@@ -40,6 +42,17 @@ def gen_ops(rng, tier):
         # (bit 0 TJPARAM_LOSSLESS, 1 PROGRESSIVE, 2 ARITHMETIC, 3 OPTIMIZE, 4 RESTARTROWS)
         ops.append("g11y %d %d %d %d %d %d %d %d" % (rng.choice([rng.randint(1, 70), 16, 32, 33, 31, 17]), rng.randint(1, 24), rng.choice([0, 1, 2, 3, 4, 5, 6]), rng.choice([0, 0, 1, 3, 8]),
                                                     rng.randrange(2), rng.randrange(1 << 30), rng.randrange(16), rng.choice([0, 0, 0, 1, 1, 2, 4, 8, 16, 31])))
+    # libjpeg API: rows inside a canary field at every alignment, RGB565 (JCS 16) and the extended RGB colourspaces (6..15), every
+    # dither mode, merged and separate upsampling, with and without a horizontal crop
+    for i in range(6000 if big else 900):
+        w = rng.choice([rng.randint(1, 40), 10, 12, 16, 17, 18, 24, 32, 33])
+        cs = rng.choice([16, 16, 16, 6, 8, 9, 12, 13, 2, 1])
+        # RGB565 pixels are 16-bit words: their rows are kept 2-byte aligned (stores through odd addresses are the known finding D31 of
+        # C01); the byte formats get every alignment and row distance
+        off = rng.choice([0, 2]) if cs == 16 else rng.randrange(4)
+        pad = rng.choice([0, 2, 2, 6]) if cs == 16 else rng.choice([0, 1, 2, 3, 6])
+        ops.append("g11r %d %d %d %d %d %d %d %d %d %d %d" % (rng.choice([0, 1, 2, 2, 4, 3]), w, rng.randint(1, 20), cs, off,
+                                                             pad, rng.randrange(3), rng.randrange(2), rng.randrange(40), rng.choice([0, 0, 3, 4, 7, 16, 40]), rng.randrange(1 << 30)))
     return ops
 
 
